@@ -301,6 +301,19 @@ func c09Atoms() []c09Atom {
 		{"link: #p2 linked to missing #zz", put([]string{"root", "people", "#p2", "places"}, tv("#zz"), []byte{})},
 		{"conflict: #p2.name overwritten with NameA", put([]string{"root", "people", "#p2"}, "name", world.EncString("NameA"))},
 		{"set: stray non-bucket key in the index", put(roles, "stray", []byte("x"))},
+		// the same corruption classes aimed at the other entity (position within a bucket matters to a scanning checker)
+		{"unique: entry for NameB missing", del(nameIdx, "NameB")},
+		{"set: #p2 missing under role1", del(append(append([]string{}, roles...), "role1"), tv("#p2"))},
+		{"set: extra #p2 under role2", put(append(append([]string{}, roles...), "role2"), tv("#p2"), []byte{})},
+		{"set: extra #p2 under role1 and dangling #zz under role2", func(tx *bbolt.Tx) error {
+			if err := put(append(append([]string{}, roles...), "role1"), tv("#p2"), []byte{})(tx); err != nil {
+				return err
+			}
+			return put(append(append([]string{}, roles...), "role2"), tv("#zz"), []byte{})(tx)
+		}},
+		{"fk: back-reference #o1 -> #p2 missing", del([]string{"root", "orgs", "#o1", "members"}, tv("#p2"))},
+		{"link: place side of #p2-#l1 missing", del([]string{"root", "places", "#l1", "people"}, tv("#p2"))},
+		{"link: #p1 linked to missing #zz", put([]string{"root", "people", "#p1", "places"}, tv("#zz"), []byte{})},
 	}
 }
 
@@ -428,7 +441,7 @@ func C09(tier string) int {
 	rep := report.New("C09", tier, "model_checking")
 	thorough := tier != "quick"
 	rep.Assume("corruptions are raw bucket edits of the supported classes on three base states built through the API; clean-state soundness is checked on every reachable state of the kitchen-sink exploration")
-	rep.Set("rule", "(a) BFS over the kitchen-sink schema: on every reachable state check-only and fix runs must report nothing and change nothing; (b) 3 base states x ALL subsets of size <= 2 (thorough: 3) of 20 corruption atoms, applied in an earlier transaction and (thorough) in the same transaction as the fix: check-only reports every item of an independent reference diff and leaves the file unchanged; fix repairs to the reference-repaired image; re-check reports only the unfixable conflicts")
+	rep.Set("rule", "(a) BFS over the kitchen-sink schema: on every reachable state check-only and fix runs must report nothing and change nothing; (b) 3 base states x ALL subsets of size <= 2 (thorough: 3) of 27 corruption atoms, applied in an earlier transaction and (thorough) in the same transaction as the fix: check-only reports every item of an independent reference diff and leaves the file unchanged; fix repairs to the reference-repaired image; re-check reports only the unfixable conflicts")
 
 	// ---- (a) soundness on healthy reachable states
 	k := newKitchen("integrity soundness", kFeat{orgs: true, places: true, pets: true, rc: true, maxCount: 1})
